@@ -346,9 +346,15 @@ func (e *Executor) execute(ctx context.Context, isRootPlan bool, p *Plan, keys [
 		}
 		optionalRespMetadata = append(optionalRespMetadata, optionalRespQueryMetaData)
 	} else {
-		res = []interface{}{
-			map[string]interface{}{},
+		// The coordinator resolves nothing itself except __typename on the root
+		// object, which the planner leaves with it.
+		root := map[string]interface{}{}
+		for _, selection := range p.SelectionSet.Selections {
+			if selection.Name == "__typename" {
+				root[selection.Alias] = p.Type
+			}
 		}
+		res = []interface{}{root}
 	}
 
 	g, ctx := errgroup.WithContext(ctx)
